@@ -221,6 +221,10 @@ pub struct Scenario {
     pub graceful_handler: bool,
     #[serde(default, skip_serializing_if = "Vec::is_empty")]
     pub handlers: Vec<HandlerSpec>,
+    /// indices of handlers registered in the same ElementContentHandlers / DocumentContentHandlers
+    /// struct as the handler before them (same selector, free slot), instead of a struct of their own
+    #[serde(default, skip_serializing_if = "Vec::is_empty")]
+    pub joins: Vec<usize>,
     /// one entry per bail-out handler: what it appends
     #[serde(default, skip_serializing_if = "Vec::is_empty")]
     pub bailout: Vec<Vec<Content>>,
@@ -256,6 +260,7 @@ impl Scenario {
             graceful_mem: false,
             graceful_handler: false,
             handlers: vec![],
+            joins: vec![],
             bailout: vec![],
             cuts: vec![],
             finish: Finish::End,
